@@ -17,7 +17,7 @@ print("TLC: %d distinct, %d generated, depth %d, %d behaviours, %.1fs, violated=
 if r["violated"]:
     print(" ", r.get("violated_inv"))
     print("  cex:", json.dumps(r["cex"])[:3000])
-    txt=open(os.path.join(E.OUT,"tlc",name,"tlc.out")).read()
+    txt=open(os.path.join(E.OUT,"tlc","%s.%d"%(name,os.getpid()),"tlc.out")).read()
     i=txt.rfind("viol |->")
     print(txt[i:i+1200])
 c = dict(E.DEFAULTS); c.update(inst)
